@@ -43,13 +43,25 @@ def validate(lg, params):
     return rejects, set(tr), len(lines)
 
 
-def run_sched(res, tier, broken, prop, extra_t1=()):
+def validate_with_join(lg, params):
+    """Model.Sched for the whole trace + Model.Join for every joiner/target hand-shake in it"""
+    rejects, trans, n = validate(lg, params)
+    for tname, lines in t3_sched.project_join(lg):
+        rej, tr, drc = t3.run_driver("join", ["init"] + lines)
+        n += len(lines)
+        trans.update("join:" + x for x in tr)
+        if rej or drc != 0:
+            rejects.append({"model": "Model.Join", "object": tname, "reject": rej or "driver rc=%d" % drc, "projected": lines})
+    return rejects, trans, n
+
+
+def run_sched(res, tier, broken, prop, extra_t1=(), validate_fn=None):
     funcs = COMMON_T1 + list(extra_t1)
     n, tb = t1.check(funcs)
     res.add_cov(t1_functions=n, t1_broken=len(tb))
     for b in tb:
         broken.append({"kind": "T1-skeleton", **b})
-    vs.campaign(res, broken, tier, prop, "sc_units", ["sc_units.c"], scenario_params, validate,
+    vs.campaign(res, broken, tier, prop, "sc_units", ["sc_units.c"], scenario_params, validate_fn or validate,
                 sizes={"quick": (16, 3), "thorough": (200, 8), "search": (150, 6)})
 
 
